@@ -518,6 +518,36 @@ def obs_C06(an):
     return out, [bytes(u.payload) for u in an.codes()]
 
 
+def parsed_count(c, args):
+    """number of variables of command c that the argument text feeds, when every argument is accepted: numeric and hex-buffer
+    arguments run to the next comma, a string argument from its opening quote to the closing one (a backslash takes the next
+    byte with it); a command none of whose variables is writable has its text handed over unparsed.  None when the text cannot have been accepted (a handler call then says nothing about the count)."""
+    if not c.vars or all(var.acc == 1 for var in c.vars):
+        return 0            # nothing writable: the text goes to the handler unparsed
+    args = bytes(args)
+    i, n = 0, 0
+    for var in c.vars:
+        if var.type == 4:
+            if i >= len(args) or args[i] != 34:
+                return None
+            i += 1
+            while i < len(args) and args[i] != 34:
+                i += 2 if args[i] == 92 else 1
+            if i >= len(args):
+                return None
+            i += 1
+        else:
+            while i < len(args) and args[i] != 44:
+                i += 1
+        n += 1
+        if i >= len(args):
+            return n
+        if args[i] != 44:
+            return None
+        i += 1
+    return None
+
+
 def oracle_C06(an):
     if an.uns_hold:
         return None
@@ -547,6 +577,9 @@ def oracle_C06(an):
             for e in hw:
                 if e[4] != args or e[6] != len(args) or not e[5]:
                     v.append("write handler got data=%r len=%d nul=%s, sent %r" % (e[4], e[6], e[5], args))
+                want = parsed_count(an.scn.cmds[cl["cmd"]], args)
+                if want is not None and e[7] != want:
+                    v.append("write handler told %d variables were parsed, the arguments %r feed %d" % (e[7], args, want))
     for e in seq(an, {"Hc", "Hu"}):
         if e[1] in ("r", "t"):
             cap = ccap if e[3] == "c" else ucap
